@@ -107,24 +107,47 @@ theorem C03_with_credentials_same_as_unprotected (fs : FS) (cs : ChainSite) (r :
 /-- PARTIAL no-disclosure theorem for the whole chain, from the raw request target on: the
 model's answer always passes the judge, for every file system without hard links and every
 configuration OUTSIDE the known failing classes:
-`DerivedSafe` (no covered index page / sibling under an uncovered URL — excludes F4),
-`ArchiveSafe` (no covered file below an uncovered directory URL — excludes F3),
-`BackendSafe` (a covered proxy scope covers the paths it matches; backend numbers are unique).
-What is missing for the full property is exactly what the witness theorems below show to fail. -/
+`IndexSafe` / `SiblingSafe` (no covered index page / precompressed sibling under an uncovered URL —
+excludes F4), `ArchiveSafe` or no archives at all (no covered file below an uncovered directory
+URL — excludes F3), `BackendSafe` (a covered proxy scope covers the paths it matches; backend
+numbers are unique).  What is missing for the full property is exactly what the witness theorems
+below show to fail. -/
 theorem C03_no_disclosure_partial (fs : FS) (cs : ChainSite) (r : CReq)
     (hroot : NormalSegs cs.site.root) (hpre : NormalPrefix cs.site.pathPrefix) (hrd : RootIsDir fs cs.site)
     (hw : TargetsNonEmpty cs) (hl : NoHardLinks fs)
-    (hds : DerivedSafe fs cs r.creds) (has : ArchiveSafe fs cs r.creds) (hbs : BackendSafe cs r.creds) :
+    (his : IndexSafe fs cs r.creds) (hss : SiblingSafe fs cs r.creds)
+    (has : ArchiveSafe fs cs r.creds ∨ NoArchives cs.site) (hbs : BackendSafe cs r.creds) :
     ChainSpec.verdict fs cs r (chainServe fs cs r) = "ok" :=
-  chainServe_verdict_ok hroot hpre hrd hw hl hds has hbs
+  chainServe_verdict_ok hroot hpre hrd hw hl his hss has hbs
 
 /-- The same statement named as the link between model and judge. -/
 theorem C03_model_verdict_ok_partial (fs : FS) (cs : ChainSite) (r : CReq)
     (hroot : NormalSegs cs.site.root) (hpre : NormalPrefix cs.site.pathPrefix) (hrd : RootIsDir fs cs.site)
     (hw : TargetsNonEmpty cs) (hl : NoHardLinks fs)
-    (hds : DerivedSafe fs cs r.creds) (has : ArchiveSafe fs cs r.creds) (hbs : BackendSafe cs r.creds) :
+    (his : IndexSafe fs cs r.creds) (hss : SiblingSafe fs cs r.creds)
+    (has : ArchiveSafe fs cs r.creds ∨ NoArchives cs.site) (hbs : BackendSafe cs r.creds) :
     ChainSpec.verdict fs cs r (chainServe fs cs r) = "ok" :=
-  chainServe_verdict_ok hroot hpre hrd hw hl hds has hbs
+  chainServe_verdict_ok hroot hpre hrd hw hl his hss has hbs
+
+/-- With directory scopes only (`DirScoped`: every resource, exclusion and internal path is a
+directory in normal form with a trailing slash, like `/secret/`), an index page or a precompressed
+sibling is covered exactly when the URL it is served for is covered: `IndexSafe` and `SiblingSafe`
+hold — protecting by directory is not affected by finding F4. -/
+theorem C03_dirscoped_index_sibling_safe (fs : FS) (cs : ChainSite) (creds : Option (Bytes × Bytes))
+    (hroot : NormalSegs cs.site.root) (hrd : RootIsDir fs cs.site) (hds : DirScoped cs) (hpn : PlainNames cs.site) :
+    IndexSafe fs cs creds ∧ SiblingSafe fs cs creds :=
+  ⟨indexSafe_of_dirScoped hds hroot hpn, siblingSafe_of_dirScoped hds hroot hrd hpn⟩
+
+/-- No-disclosure with SYNTACTIC hypotheses only: directory scopes in normal form, plain index
+names and sibling extensions, no `servearchive`, no `proxy`.  For every such site, every file
+system without hard links, every request target, method, Accept-Encoding and credentials, the
+model's answer passes the judge: no content of a covered file without accepted credentials. -/
+theorem C03_no_disclosure_dirscoped (fs : FS) (cs : ChainSite) (r : CReq)
+    (hroot : NormalSegs cs.site.root) (hpre : NormalPrefix cs.site.pathPrefix) (hrd : RootIsDir fs cs.site)
+    (hw : TargetsNonEmpty cs) (hl : NoHardLinks fs)
+    (hds : DirScoped cs) (hpn : PlainNames cs.site) (hna : NoArchives cs.site) (hnp : cs.proxies = []) :
+    ChainSpec.verdict fs cs r (chainServe fs cs r) = "ok" :=
+  chainServe_verdict_ok_dirScoped hroot hpre hrd hw hl hds hpn hna hnp
 
 /-! ### Witnesses: the full property fails on the model exactly as on the real code -/
 
@@ -190,18 +213,55 @@ theorem C03_internal_prefix_fails_witness :
 def wOpen : ChainSite := {
   site := wSite [], tryfiles := none, rewrites := [], exts := [], auth := [], internal := [], proxies := [] }
 
-/-- a site without protection directives meets the three "safe" hypotheses … -/
-example : DerivedSafe wFS wOpen none := by
-  intro p q e _ _ _ _ hc; simp [covered, needsAuth, isInternal, wOpen] at hc
+/-- a site without protection directives meets the "safe" hypotheses … -/
+example : IndexSafe wFS wOpen none := by
+  intro p ip e _ _ _ _ _ hc; simp [covered, needsAuth, isInternal, wOpen] at hc
+example : SiblingSafe wFS wOpen none := by
+  intro q ne e0 e _ _ _ _ _ _ hc; simp [covered, needsAuth, isInternal, wOpen] at hc
 example : ArchiveSafe wFS wOpen none := by
   intro p d e _ _ _ _ _ hc; simp [covered, needsAuth, isInternal, wOpen] at hc
 example : BackendSafe (wCS (b! "/area/locked")) none := by
   refine ⟨?_, ?_⟩
   · intro _ x hx; simp [wCS] at hx
   · intro x hx; simp [wCS] at hx
+
+/-- … and a site protecting a directory, written `/area/locked/`, with an excluded
+sub-directory and an internal directory, without archives, meets the syntactic ones
+(and really protects: tests below) -/
+def wDir : ChainSite := {
+  site := { wSite [b! "/docs/"] with browse := [{ scope := b! "/", archives := [] }] },
+  tryfiles := none, rewrites := [], exts := [],
+  auth := [{ user := b! "bob", pass := b! "pw", resources := [b! "/area/locked/"], excludes := [b! "/area/locked/pub/"] }],
+  internal := [b! "/docs/"], proxies := [] }
+
+theorem dirBase_of (B : List Bytes) (hne : B ≠ []) (hn : NormalSegs B) : DirBase (slash :: joinSlash B ++ [slash]) :=
+  ⟨B, hne, hn, rfl⟩
+
+example : DirScoped wDir := by
+  have h1 : DirBase (b! "/area/locked/") :=
+    dirBase_of [b! "area", b! "locked"] (by simp) (by intro s hs; simp at hs; rcases hs with rfl | rfl <;> exact ⟨by decide, by decide, by decide, by decide⟩)
+  have h2 : DirBase (b! "/area/locked/pub/") :=
+    dirBase_of [b! "area", b! "locked", b! "pub"] (by simp) (by intro s hs; simp at hs; rcases hs with rfl | rfl | rfl <;> exact ⟨by decide, by decide, by decide, by decide⟩)
+  have h3 : DirBase (b! "/docs/") :=
+    dirBase_of [b! "docs"] (by simp) (by intro s hs; simp at hs; subst hs; exact ⟨by decide, by decide, by decide, by decide⟩)
+  refine ⟨?_, ?_⟩
+  · intro r hr
+    simp [wDir] at hr; subst hr
+    exact ⟨by intro b hb; simp at hb; subst hb; exact h1, by intro b hb; simp at hb; subst hb; exact h2⟩
+  · intro b hb; simp [wDir] at hb; subst hb; exact h3
+example : PlainNames wDir.site := by
+  refine ⟨?_, ?_⟩
+  · intro ip hip; simp [wDir, wSite] at hip; subst hip; exact ⟨by decide, by decide, by decide, by decide⟩
+  · intro ne hne; simp [wDir, wSite] at hne; subst hne; exact ⟨_, _, rfl, by decide, by decide⟩
+example : NoArchives wDir.site := by intro bc hbc; simp [wDir, wSite] at hbc; subst hbc; rfl
+example : wDir.proxies = [] := rfl
+example : chainServe wFS wDir (wReq (b! "/area/locked/l") []) = .unauthorized := by decide
+example : chainServe wFS wDir (wReq (b! "/docs/") []) = .served (.status 404) := by decide
+example : chainServe wFS wDir (wReq (b! "/area/") []) = .served (.listing [b! "free", b! "locked"]) := by decide
+
 /-- … and so does any site for a request carrying credentials that every rule accepts -/
-example : DerivedSafe wFS (wCS (b! "/area/locked")) (some (b! "bob", b! "pw")) := by
-  intro p q e _ _ _ _ hc
+example : IndexSafe wFS (wCS (b! "/area/locked")) (some (b! "bob", b! "pw")) := by
+  intro p ip e _ _ _ _ _ hc
   have h1 : needsAuth (wCS (b! "/area/locked")).auth (canonURL (wCS (b! "/area/locked")).site e) (some (b! "bob", b! "pw")) = false :=
     needsAuth_of_accepts _ _ _ (by intro r hr _; simp [wCS] at hr; subst hr; decide)
   have h2 : isInternal (wCS (b! "/area/locked")).internal (canonURL (wCS (b! "/area/locked")).site e) = false := rfl
